@@ -354,6 +354,7 @@ impl Scenario for RepeatScenario {
                 });
             }
         }
+        crate::verif::props::gen_out::sprinkle_splits(rng, &mut script);
         SoutCase {
             cfg,
             ctrl: if rng.chance(3, 4) {
